@@ -470,7 +470,7 @@ macro_rules! impl_nio_read_buf {
                 let mut left_time = $crate::syscall::recv_time_limit($fd);
                 let mut received = 0;
                 let mut r = -1;
-                while received < $len && left_time > 0 {
+                while left_time > 0 {
                     r = self.inner.$syscall(
                         fn_ptr,
                         $fd,
@@ -695,7 +695,7 @@ macro_rules! impl_nio_write_buf {
                 let mut left_time = $crate::syscall::send_time_limit($fd);
                 let mut sent = 0;
                 let mut r = -1;
-                while sent < $len && left_time > 0 {
+                while left_time > 0 {
                     r = self.inner.$syscall(
                         fn_ptr,
                         $fd,
